@@ -108,10 +108,34 @@ fn run_local(case: &Case, out: &mut Out) {
   let pipe_expr: &SExp = &case.field("pipe")[0];
   let pipeline = build_local(pipe_expr, &ctx);
   let mut sub: Option<BoxSubscription<'static>> = None;
-  let drain = |log: &Rc<RefCell<Vec<Notif>>>| std::mem::take(&mut *log.borrow_mut());
+  // field `twosubs`: a second subscription of a clone of the SAME pipeline value (events `sub2` / `unsub2`),
+  // its deliveries are printed as ` o2=…` after the first subscription's
+  let two = case.has("twosubs");
+  let log2 = Rc::new(RefCell::new(Vec::<Notif>::new()));
+  let mut sub2: Option<BoxSubscription<'static>> = None;
+  let drain = |log: &Rc<RefCell<Vec<Notif>>>| {
+    let a = fmt_log(std::mem::take(&mut *log.borrow_mut()));
+    if two {
+      a + " " + &fmt_log(std::mem::take(&mut *log2.borrow_mut())).replacen("o=", "o2=", 1)
+    } else {
+      a
+    }
+  };
   for (k, ev) in case.events.iter().enumerate() {
     out.cur = k;
     match ev[0].atom() {
+      "sub2" => {
+        sub2 = Some(pipeline.clone().actual_subscribe(Probe(log2.clone())));
+        let sfx = suffix(case, &exec);
+        out.emit(k, drain(&log) + &sfx);
+      }
+      "unsub2" => {
+        if let Some(u) = sub2.take() {
+          u.unsubscribe();
+        }
+        let sfx = suffix(case, &exec);
+        out.emit(k, drain(&log) + &sfx);
+      }
       "sub" => {
         // field `closure`: subscribe the way users do — `.on_error(f).on_complete(g).subscribe(h)`
         // (OnErrorObserver, OnCompleteObserver, ObserverItem) instead of a hand-written observer
@@ -129,7 +153,7 @@ fn run_local(case: &Case, out: &mut Out) {
         };
         sub = Some(u);
         let sfx = suffix(case, &exec);
-        out.emit(k, fmt_log(drain(&log)) + &sfx);
+        out.emit(k, drain(&log) + &sfx);
       }
       "emit" => {
         let mut s = ctx.subject(ev[1].nat());
@@ -139,14 +163,14 @@ fn run_local(case: &Case, out: &mut Out) {
           Notif::Complete => s.complete(),
         }
         let sfx = suffix(case, &exec);
-        out.emit(k, fmt_log(drain(&log)) + &sfx);
+        out.emit(k, drain(&log) + &sfx);
       }
       "unsub" => {
         if let Some(u) = sub.take() {
           u.unsubscribe();
         }
         let sfx = suffix(case, &exec);
-        out.emit(k, fmt_log(drain(&log)) + &sfx);
+        out.emit(k, drain(&log) + &sfx);
       }
       "q" => match ev[1].atom() {
         "closed" => {
@@ -163,7 +187,7 @@ fn run_local(case: &Case, out: &mut Out) {
       },
       _ if time_event(ev, &exec) => {
         let sfx = suffix(case, &exec);
-        out.emit(k, fmt_log(drain(&log)) + &sfx);
+        out.emit(k, drain(&log) + &sfx);
       }
       e => panic!("unknown event {}", e),
     }
@@ -186,10 +210,32 @@ fn run_threads(case: &Case, out: &mut Out) {
   let pipe_expr: &SExp = &case.field("pipe")[0];
   let pipeline = build_threads(pipe_expr, &ctx);
   let mut sub: Option<BoxSubscriptionThreads> = None;
-  let drain = |log: &Arc<Mutex<Vec<Notif>>>| std::mem::take(&mut *log.lock().unwrap());
+  let two = case.has("twosubs");
+  let log2 = Arc::new(Mutex::new(Vec::<Notif>::new()));
+  let mut sub2: Option<BoxSubscriptionThreads> = None;
+  let drain = |log: &Arc<Mutex<Vec<Notif>>>| {
+    let a = fmt_log(std::mem::take(&mut *log.lock().unwrap()));
+    if two {
+      a + " " + &fmt_log(std::mem::take(&mut *log2.lock().unwrap())).replacen("o=", "o2=", 1)
+    } else {
+      a
+    }
+  };
   for (k, ev) in case.events.iter().enumerate() {
     out.cur = k;
     match ev[0].atom() {
+      "sub2" => {
+        sub2 = Some(pipeline.clone().actual_subscribe(ProbeT(log2.clone())));
+        let sfx = suffix(case, &exec);
+        out.emit(k, drain(&log) + &sfx);
+      }
+      "unsub2" => {
+        if let Some(u) = sub2.take() {
+          u.unsubscribe();
+        }
+        let sfx = suffix(case, &exec);
+        out.emit(k, drain(&log) + &sfx);
+      }
       "sub" => {
         let u = if case.has("closure") {
           let (l1, l2, l3) = (log.clone(), log.clone(), log.clone());
@@ -205,7 +251,7 @@ fn run_threads(case: &Case, out: &mut Out) {
         };
         sub = Some(u);
         let sfx = suffix(case, &exec);
-        out.emit(k, fmt_log(drain(&log)) + &sfx);
+        out.emit(k, drain(&log) + &sfx);
       }
       "emit" => {
         let mut s = ctx.subject(ev[1].nat());
@@ -215,14 +261,14 @@ fn run_threads(case: &Case, out: &mut Out) {
           Notif::Complete => s.complete(),
         }
         let sfx = suffix(case, &exec);
-        out.emit(k, fmt_log(drain(&log)) + &sfx);
+        out.emit(k, drain(&log) + &sfx);
       }
       "unsub" => {
         if let Some(u) = sub.take() {
           u.unsubscribe();
         }
         let sfx = suffix(case, &exec);
-        out.emit(k, fmt_log(drain(&log)) + &sfx);
+        out.emit(k, drain(&log) + &sfx);
       }
       "q" => match ev[1].atom() {
         "closed" => {
@@ -239,7 +285,7 @@ fn run_threads(case: &Case, out: &mut Out) {
       },
       _ if time_event(ev, &exec) => {
         let sfx = suffix(case, &exec);
-        out.emit(k, fmt_log(drain(&log)) + &sfx);
+        out.emit(k, drain(&log) + &sfx);
       }
       e => panic!("unknown event {}", e),
     }
